@@ -9,20 +9,29 @@ import vlib
 META = {
     "category": "proof",
     "text": "Coq theorems over an executable model of shanhu.io/g/dags, for every finite directed graph (self-loops, "
-            "duplicate list entries and dangling targets included) and every map iteration order: the checker "
-            "accepts exactly the graphs whose targets exist and that have no cycle, never panics, a reported cycle "
-            "is a closed walk no longer than any closed walk of the graph; for accepted graphs layers are 1 + the "
-            "highest predecessor layer, AllIns/AllOuts are exactly reachability, critical edges exactly the "
-            "transitive reduction, pushing keeps every edge left to right inside the layer range, the layout puts "
-            "no two nodes on one coordinate and stays inside width x height; reversing twice preserves the edge "
-            "multiset.  The model is tied to the code by running the real package on every graph with <= 3 nodes "
-            "(dangling targets included), all 65 536 graphs on 4 nodes and seeded larger graphs, and evaluating the "
-            "model on the same graphs inside Coq (vm_compute) under two iteration orders.",
-    "note": "Trusted: Coq kernel + vm_compute; harness/cmd/c19 and checks/c19.py (projection of names to ranks, "
-            "comparison, independent textbook oracles); Go's sort.Sort and map semantics are modelled (sets as "
-            "duplicate-free lists, iteration order as an arbitrary permutation oracle); no axioms.",
-    "technique": "Coq proof (invariants of Kahn layering, BFS, closure propagation; induction) + vm_compute "
-                 "correspondence on exhaustive small scopes + independent graph oracles",
+            "duplicate list entries and dangling targets included) and every map iteration order (an arbitrary "
+            "permutation oracle): CheckDAG/NewMap accept exactly the graphs whose targets exist and that have no "
+            "cycle, never reach the 'should find a circle' panic, a reported cycle is a closed walk no longer than "
+            "any closed walk of the graph and its length does not depend on the iteration order; for accepted "
+            "graphs the layers are unique, every predecessor is in a strictly lower layer and every node in its "
+            "lowest possible layer, AllIns/AllOuts are exactly reachability, CritIns/CritOuts exactly the "
+            "transitive reduction, pushTight terminates without its panic and keeps every edge left to right below "
+            "Nlayer, LayoutMap puts no two nodes on one coordinate, inside width x height, TopoSort is a "
+            "topological order, Reverse twice gives the sorted edge lists back (plus dangling names as nodes).  The "
+            "layout theorems are instantiated with the sort orders, reserved slots and snapNearBy arms regenerated "
+            "from /repo on every run; the text of every other modelled function is compared with the text the model "
+            "follows; the model is run inside Coq (vm_compute, two iteration orders) against the real package on "
+            "every graph with <= 3 nodes (dangling targets included), all 65 536 graphs on 4 nodes and seeded larger "
+            "graphs; thorough: all 2^25 graphs on 5 nodes against in-harness oracles, all 29 281 acyclic ones and a "
+            "sample of the rest through the model, coqchk.",
+    "note": "Trusted: Coq kernel + vm_compute; translator gen/dags.go; harness/cmd/c19 and checks/c19.py (names to "
+            "ranks, comparison, independent textbook oracles); Go's sort.Sort and map semantics are modelled (sets as "
+            "duplicate-free lists, iteration order as a permutation oracle in makeLayers/minCircle/buildAlls/Reverse; "
+            "the loops of pushTight/LayoutMap are order-independent by construction and modelled in stored order); "
+            "Closure(), RevLayout and the JSON output are not modelled; no axioms.",
+    "technique": "Coq proof (invariants of Kahn layering, level-order search, closure propagation, slot reservation; "
+                 "induction) + go/ast translation of sort orders and layout constants + vm_compute correspondence on "
+                 "exhaustive small scopes + independent graph oracles",
 }
 
 MODEL = ["theories/Dag/DagCorr.vo"]
@@ -236,6 +245,8 @@ def impl_oracle(c):
         bad.append(("topo", "TopoSort is not a topological order of the nodes"))
     if not o.get("maprev2"):
         bad.append(("reverse", "Map.Reverse twice does not restore the node sets"))
+    if o.get("revbad"):
+        bad.append(("revlayout", "RevLayout: %s" % o["revbad"]))
     return bad
 
 
